@@ -603,3 +603,19 @@ package rsm
 //@ modifies gBlockBad, gCovered
 //@ ensures result ==> !gBlockBad && v.total == gCovered + tailSize
 //@ loop 1 invariant !gBlockBad && len(block) >= 0 && v.total == gCovered + len(block) + tailSize
+
+// ---------------------------------------------------------------- membership changes are always applied (C07)
+// membership is not part of the user state machine: a committed config-change entry is handed to
+// configChange on every replica and on every replay, whatever the on-disk state machine's index
+//@ ghost var gCCHandled bool
+//@ func (s *StateMachine) configChange [C07]
+//@ trusted decodes the config change and applies it to the membership (membership.handleConfigChange is under contract)
+//@ ghostset gCCHandled := true
+//@ iface (n INode) ApplyUpdate
+//@ func (s *StateMachine) handleEntry [C07]
+//@ noframe
+//@ nobounds
+//@ requires !gCCHandled && s.sessions != nil && s.sessions.lru != nil && s.node != nil && s.sm != nil && s.index < MaxUint64
+//@ requires s.sessOf(e.ClientID) != nil ==> s.sessOf(e.ClientID).J()
+//@ modifies gCCHandled
+//@ ensures e.Type == pb.ConfigChangeEntry && result == nil ==> gCCHandled
